@@ -119,17 +119,19 @@ mod verif_unix {
         std::mem::forget(r);
     }
 
-    //@H name=c13_unix_buffered_ctor props=C05,C13,C14 bound="capacity 0..=64" fn=BufferedUnixMetricSink::with_capacity :: the buffered constructor builds the line writer with the given capacity, a single newline terminator, the given path, and shares its statistics with the adapter
+    //@H name=c13_unix_buffered_ctor props=C05,C13,C14,C19 bound="capacity 0..=64 or 1000000" fn=BufferedUnixMetricSink::with_capacity :: the buffered constructor builds the line writer with the given capacity, a single newline terminator, the given path, and shares its statistics with the adapter
     #[kani::proof]
     #[kani::unwind(40)]
     #[kani::stub(std::path::Path::canonicalize, canonicalize_stub)]
     fn c13_unix_buffered_ctor() {
-        let cap: usize = kani::any();
-        kani::assume(cap <= 64);
+        // BufWriter::with_capacity allocates cap bytes: small symbolic sizes, or one size beyond any datagram limit
+        let small: usize = kani::any();
+        kani::assume(small <= 64);
+        let cap: usize = if kani::any() { small } else { 1_000_000 };
         let s = ManuallyDrop::new(BufferedUnixMetricSink::with_capacity(GIVEN, fake_socket(), cap));
         {
             let w = s.buffer.lock().unwrap();
-            assert!(w.verif_capacity() == cap, "[C05,C13] the configured capacity is the one used");
+            assert!(w.verif_capacity() == cap, "[C05,C13,C19] the configured capacity is the one used, whatever its size (the sink neither clamps nor replaces it)");
             assert!(w.verif_ending().len() == 1 && w.verif_ending()[0] == b'\n', "[C13] the terminator is a single newline");
             assert!(w.verif_written() == 0 && w.verif_buffered().is_empty(), "[C06] nothing is buffered initially");
             assert!(w.verif_inner().path.as_os_str().as_bytes() == GIVEN.as_bytes(), "[C13] datagrams go to the path given at construction");
